@@ -139,6 +139,8 @@ func genC19(verifSeed int64, tier string, idx int) *core.Scenario {
 			st = Step{K: "Retrieve", ID: r.Intn(nids), Via: via}
 		case sp.Path2 != "" && k == 8 && r.Intn(2) == 0:
 			st = Step{K: "Repoint"}
+		case sp.DirState != "file" && k == 9 && r.Intn(3) == 0:
+			st = Step{K: "RmDir"} // somebody removes the data directory: it is missing again and must be created again
 		default:
 			st = Step{K: "Damage", ID: r.Intn(nids), Dmg: []string{"trunc0", "truncmid", "garbage", "chmod000", "truncsmall", "garbagesmall", "flipbyte", "isdir"}[r.Intn(8)], D: r.Intn(1 << 16)}
 		}
@@ -595,6 +597,7 @@ func (e *env) step(i int, st Step) string {
 			return "err-noclobber"
 		}
 		if err == nil {
+			e.dirGone = false
 			m.doc, m.uncertain, m.maybe, m.damaged, m.mode000, m.isdir = doc, false, nil, "", false, false
 			m.files = nil
 			seen := map[string]bool{}
@@ -612,6 +615,8 @@ func (e *env) step(i int, st Step) string {
 		// the store failed
 		if !faulted {
 			switch {
+			case e.dirGone:
+				e.violate("store:Store:failed:missing-dir:removed-later", fmt.Sprintf("the data directory %q was removed after earlier stores; Store(%q) failed without any fault instead of creating it again: %v", e.curPath, short(id), err))
 			case m.mode000:
 				return "err-entry-unwritable"
 			case m.isdir:
@@ -670,6 +675,16 @@ func (e *env) step(i int, st Step) string {
 		e.model = e.models[next]
 		e.res.Probes["storage re-pointed at another directory"]++
 		return "repointed"
+	case "RmDir":
+		if !e.disk.RemoveTree(e.curPath) {
+			return "nothing-to-remove"
+		}
+		for _, m := range e.model {
+			m.doc, m.uncertain, m.maybe, m.damaged, m.mode000, m.isdir, m.files = nil, false, nil, "", false, false, nil
+		}
+		e.dirGone = true
+		e.res.Probes["data directory removed between calls"]++
+		return "removed"
 	case "Damage":
 		m := e.model[id]
 		if m == nil || m.doc == nil || len(m.files) == 0 {
